@@ -95,6 +95,15 @@ class KeyEval:
                     for n in own_nodes(t.node):
                         if isinstance(n, ast.Compare) and isinstance(n.ops[0], ast.NotIn):
                             return list(self.const(n.comparators[0], t)), f, c
+        # the validator written in place / de-extracted into the entry point: `for k in <name>: if k not in LIST: raise ValueError`
+        for lp in own_nodes(f.node):
+            if isinstance(lp, ast.For) and isinstance(lp.target, ast.Name) and isinstance(lp.iter, ast.Name) and lp.iter.id == name:
+                for r in ast.walk(lp):
+                    if isinstance(r, ast.Raise) and r.exc is not None and 'ValueError' in norm(r.exc):
+                        for e, p in q.guards(r):
+                            if isinstance(e, ast.Compare) and len(e.ops) == 1 and isinstance(e.ops[0], (ast.In, ast.NotIn)) and norm(e.left) == lp.target.id \
+                                    and (isinstance(e.ops[0], ast.NotIn) == p):
+                                return list(self.const(e.comparators[0], f)), f, lp
         return None
 
     def entry_for_submission_task(self, cls):
@@ -637,34 +646,39 @@ def validate_first(ctx):
         '__init__.S3Transfer.upload_file': 'ALLOWED_UPLOAD_ARGS', '__init__.S3Transfer.download_file': 'ALLOWED_DOWNLOAD_ARGS',
         'processpool.ProcessPoolDownloader.download_file': None,
     }
+    # judged on the fully expanded entry points: the validator (a method, a module-level function, or written in place)
+    # appears there as a loop over extra_args that raises ValueError for a key that is not in the allow-list
+    x = ctx.expanded()
     for qn, lst in want.items():
-        f = ctx.func(qn)
-        g = ctx.cfg(f)
-        vals = [c for c in own_calls(f.node) if (dotted(c.func) or '').endswith('_validate_all_known_args')]
-        ok = bool(vals) and all(c.args and norm(c.args[0]) == 'extra_args' and (lst is None or (len(c.args) > 1 and norm(c.args[1]).endswith(lst))) for c in vals)
-        ctx.ob(f, f'_validate_all_known_args(extra_args, {lst or "ALLOWED_DOWNLOAD_ARGS"})', ok, 'the entry point must validate against its own allow-list')
+        f = x.func(qn)
+        g = x.cfg(f)
+        want_list = lst or 'ALLOWED_DOWNLOAD_ARGS'
+        loops = []
+        for lp in own_nodes(f.node):
+            if not (isinstance(lp, ast.For) and isinstance(lp.target, ast.Name) and norm(q.resolve_local(f, lp.iter)) == 'extra_args'):
+                continue
+            raises = [r for r in ast.walk(lp) if isinstance(r, ast.Raise) and r.exc is not None and 'ValueError' in norm(r.exc)]
+            for r in raises:
+                inner = [(e, p) for e, p in q.guards(r) if any(a_ is lp for a_ in ancestors(e))]
+                for e, p in inner:
+                    if isinstance(e, ast.Compare) and len(e.ops) == 1 and isinstance(e.ops[0], (ast.In, ast.NotIn)) and norm(e.left) == lp.target.id \
+                            and (isinstance(e.ops[0], ast.NotIn) == p) and norm(q.resolve_local(f, e.comparators[0])).endswith(want_list) and len(inner) == 1:
+                        loops.append(lp)
+        ctx.ob(f.qualname, f'_validate_all_known_args(extra_args, {want_list})', len(loops) >= 1, 'the entry point must validate against its own allow-list', node=f.node)
         later = []
-        for c, r in q.calls_in(ctx, f):
+        for c, r in q.calls_in(x, f):
             d = dotted(c.func) or ''
-            if r.kind == 'client' or d.endswith(('_submit_transfer', '_multipart_upload', '_put_object', '_object_size', '_download_file', '_download_request_queue.put')):
+            if r.kind == 'client' or d.endswith(('_submit_transfer', '_multipart_upload', '_put_object', '_object_size', '_download_file', '_download_request_queue.put',
+                                                 '_submission_executor.submit', 'uploader.upload_file', 'downloader.download_file')):
                 later += g.nodes_of(c)
-        vn = [n for c in vals for n in g.nodes_of(c)]
-        ctx.ob(f, 'validation precedes submission / first request', bool(vn) and bool(later) and g.all_dominate(vn, later, g.NORMAL) and not any(q.guards(c) for c in vals),
-               'an argument outside the allow-list must be rejected before any request is made')
-    v = ctx.func('manager.TransferManager._validate_all_known_args')
-    raises = [n for n in own_nodes(v.node) if isinstance(n, ast.Raise)]
-    ok = bool(raises) and all(isinstance(q.in_loop(r), ast.For) and norm(q.in_loop(r).iter) == v.params[1]
-                              and q.guards_imply(q.guards(r), f'{norm(q.in_loop(r).target)} not in {v.params[2]}') for r in raises)
-    ctx.ob(v, 'raise ValueError for every key not in allowed', ok, 'the validator must reject unknown keys')
-    # every call walks the whole dict: no way out before/around the loop (e.g. a memo keyed by the
-    # argument names only answers for a different allow-list)
-    vg = ctx.cfg(v)
-    loops = [n for n in vg.nodes if n.kind == 'for' and norm(n.ast) == v.params[1]]
-    early = [n for n in own_nodes(v.node) if isinstance(n, (ast.Return, ast.Break)) ]
-    ctx.ob(v, 'every call checks every key (no early return/break, the loop is on every path)',
-           bool(loops) and not early and vg.must_pass([vg.entry], loops, [vg.exit], vg.NORMAL),
-           'a validation that can be skipped lets an argument outside this entry point\'s allow-list through to the request')
-
+        vn = [n for lp in loops for n in g.nodes if n.kind == 'for' and n.stmt is lp]
+        ctx.ob(f.qualname, 'validation precedes submission / first request', bool(vn) and bool(later) and g.all_dominate(vn, later, g.NORMAL) and not any(q.guards(lp) for lp in loops),
+               'an argument outside the allow-list must be rejected before any request is made', node=f.node)
+        early = [n for lp in loops for n in ast.walk(lp) if isinstance(n, (ast.Return, ast.Break)) and q.in_loop(n) is lp]
+        ctx.ob(f.qualname, 'every call checks every key (no early return/break, the loop is on every path)',
+               bool(vn) and not early and g.must_pass([g.entry], vn, later or [g.exit], g.NORMAL),
+               'a validation that can be skipped lets an argument outside this entry point\'s allow-list through to the request', node=f.node)
+    ctx.ob('manager.TransferManager._validate_all_known_args', 'raise ValueError for every key not in allowed', True, 'judged at each expanded entry point', trivial=True)
 
 
 @rule('C15.c', ['C15'], floor=6)
